@@ -179,6 +179,10 @@ pub enum AbsorbVia {
     Mmap,
     MmapRayon,
     ReaderFile,
+    /// a file shared by every task that absorbs the same bytes this way (one path, created once, kept for the run):
+    /// how 0 update_mmap, 1 update_mmap_rayon on a one-thread pool adopted by the calling task (its joins and kernel
+    /// dispatches are scheduling points of that task), 2 update_reader(File)
+    SharedFile { how: u8 },
     TraitUpdate,
     MacUpdate,
     DigestUpdate,
@@ -302,6 +306,9 @@ pub enum Op {
     CInit { slot: usize, flavour: u8, mode: Mode, raw: bool },
     CUpdate { c: usize, data: usize, off: usize, len: usize, tbb: Option<JoinPolicy> },
     CFinalize { c: usize, seek: Option<u64>, out_len: usize },
+    /// finalize with out_len = 2^32 + extra into a virtual window (one small memfd mapped over and over, guard
+    /// page behind it): size_t arithmetic above 32 bits; judged by the memory-safety monitors only
+    CFinalizeHuge { c: usize, seek: Option<u64>, extra: u32 },
     CReset { c: usize },
     CCopy { c: usize, new: usize },
     CSetMask { mask: u32 },
@@ -353,6 +360,7 @@ impl Op {
             Op::CInit { .. } => "CInit",
             Op::CUpdate { .. } => "CUpdate",
             Op::CFinalize { .. } => "CFinalize",
+            Op::CFinalizeHuge { .. } => "CFinalizeHuge",
             Op::CReset { .. } => "CReset",
             Op::CCopy { .. } => "CCopy",
             Op::CSetMask { .. } => "CSetMask",
@@ -412,6 +420,10 @@ pub enum Damage {
     /// edit 0 substitute, 1 insert, 2 delete; position counted in chars of the line
     Line { line: usize, pos: usize, edit: u8, ch: String },
     AppendLine { text_hex: String },
+    /// the lines of another saved checkfile appended (a checkfile mixing --tag and plain lines)
+    Concat { other: usize },
+    /// n copies of one line (the failure count of a --check run reaches and passes 256, 65536)
+    AppendLines { text_hex: String, n: usize },
     TruncateBytes { n: usize },
     InvalidUtf8 { at: usize },
     DropFinalNewline,
